@@ -151,7 +151,12 @@ class RxWorld:
     def fresh_match_param(self, eng, name, pattern_qual, st):
         """A parameter that is a match object of a known pattern: fresh subject/position plus the derived match facts."""
         from .replay import resolve
-        pat = resolve(pattern_qual)
+        try:
+            pat = resolve(pattern_qual)
+        except Exception as ex:
+            # the sidecar names a pattern constant the current tree no longer has: the function is then outside what the contracts
+            # describe (undecided), not a failure of the engine
+            raise Unsupported(f'match pattern {pattern_qual} cannot be resolved on this tree: {type(ex).__name__}: {ex}')
         pid, info = self.pid(pat)
         subj = z3.String(f'{name}.string')
         pos = z3.Int(f'{name}.pos')
